@@ -220,6 +220,7 @@ jobs:
         env: ${{ fromJSON('{"S":"t"}') }}
   rows:
     runs-on:
+      group: row-runners
       labels: ${{ matrix.os }}
     strategy:
       matrix:
